@@ -363,9 +363,38 @@ pub fn parse_event(tok: &str) -> Event {
 }
 
 /// Construct the mock (under catch_unwind) and run the events on it.
+/// set by the case parser (`strictU` / `partialU`): the mock of the next case is constructed by cleanup code (a guard's
+/// Drop) that runs WHILE THE THREAD UNWINDS from an unrelated panic
+pub static NEW_UNWINDING: std::sync::atomic::AtomicBool = std::sync::atomic::AtomicBool::new(false);
+
+pub fn fallback_token(tok: &str) -> bool {
+    NEW_UNWINDING.store(tok.ends_with('U'), std::sync::atomic::Ordering::SeqCst);
+    match tok.trim_end_matches('U') {
+        "strict" => false,
+        "partial" => true,
+        other => panic!("bad fallback {other}"),
+    }
+}
+
 pub fn run_events(mut make: impl FnMut() -> Unimock, events: &[Event], out: &mut impl Write) {
     ARMED_GLOBAL.store(0, std::sync::atomic::Ordering::SeqCst);
-    let made = catch_unwind(AssertUnwindSafe(&mut make));
+    let made = if NEW_UNWINDING.swap(false, std::sync::atomic::Ordering::SeqCst) {
+        struct Cleanup<'a, F: FnMut() -> Unimock>(&'a mut Option<std::thread::Result<Unimock>>, &'a mut F);
+        impl<F: FnMut() -> Unimock> Drop for Cleanup<'_, F> {
+            fn drop(&mut self) {
+                assert!(std::thread::panicking());
+                *self.0 = Some(catch_unwind(AssertUnwindSafe(&mut *self.1)));
+            }
+        }
+        let mut res = None;
+        let _ = catch_unwind(AssertUnwindSafe(|| {
+            let _cleanup = Cleanup(&mut res, &mut make);
+            panic!("user");
+        }));
+        res.expect("cleanup ran")
+    } else {
+        catch_unwind(AssertUnwindSafe(&mut make))
+    };
     let u = match made {
         Ok(u) => u,
         Err(p) => {
